@@ -14,6 +14,7 @@ func init() {
 	if c := os.Getenv("GOVC_CLASSES"); c != "" {
 		onlyClasses = strings.Split(c, ",")
 	}
+	onlyProp = os.Getenv("GOVC_PROP")
 }
 
 func main() {
